@@ -100,6 +100,38 @@ class Bounds:
             n = closure_from_fn_len(self.b)
             if n is not None:
                 return (0, n - 1)
+        if t[0] == 'param' and t[1] >= 2 and self.b.kind == 'Closure' and depth < 6:
+            # parameter of a local closure that is only ever called directly (`let f = |i| ..; f(0); f(1)`): the hull of the arguments
+            prog = self.b.prog
+            sites = [(cb, bi, ct) for cb in prog.bodies.values() for bi, ct in cb.calls() if ct['callee'].get('resolved') == self.b.path and len(ct['args']) == 2]
+            if sites:
+                lo = hi = None
+                for cb, bi, ct in sites:
+                    tup = strip(cb.op_term(ct['args'][1], (bi, None)))
+                    if not (isinstance(tup, tuple) and tup[0] == 'agg' and t[1] - 2 < len(tup) - 2):
+                        lo = None
+                        break
+                    r = Bounds(cb).rng(tup[2 + t[1] - 2], depth + 3)
+                    if r is None:
+                        lo = None
+                        break
+                    lo = r[0] if lo is None else min(lo, r[0])
+                    hi = r[1] if hi is None else max(hi, r[1])
+                else:
+                    # ... and it is not handed to anything else as a value
+                    creators = [cb for cb in prog.bodies.values() for i2, j2, st in cb.stmts()
+                                if st['rv']['k'] == 'agg' and isinstance(st['rv'].get('kind'), dict) and st['rv']['kind'].get('closure') == self.b.path]
+                    passed = False
+                    for cb in creators:
+                        for bi, ct in cb.calls():
+                            if ct['callee'].get('resolved') == self.b.path:
+                                continue
+                            for a in ct['args']:
+                                cl, _ = util.closure_of_term(prog, cb.op_term(a, (bi, None)))
+                                if cl is not None and cl.path == self.b.path:
+                                    passed = True
+                    if lo is not None and not passed:
+                        return (lo, hi)
         if t[0] == 'fld' and self.b.kind == 'Closure' and util.is_param(t[1], 1):
             # captured variable: evaluate it where the closure is created
             cap = closure_capture(self.b, t[2])
